@@ -19,15 +19,15 @@ ASSUMPTIONS = [
   "values generated (ties stay ties, distinct values stay distinct - also for the nearly tied values base + j 2^-30, whose differences from "
   "the midpoint are exact in double by Sterbenz), so comparisons on doubles and on the exact rationals of the model agree",
   "one optimised metric, no task costs (the endpoint asserts that no Pareto optimisation is required); finite values",
-  "'overall best observation' is read on the scaled values (failures carry the lie value), see LEVEL_NOTE",
+  "'overall best observation' / 'best-valued observation of its cluster' are read strictly: a SUCCESSFUL observation with the best raw "
+  "value (the view compares failed observations as +inf); a failed observation is returned only for a cluster without any success",
 ]
 TRUSTED = ["tools/props/C18.py case generator, endpoint driver and the Q-literal printer", "Model/KCenterCorr.v check function"]
 
-# signature of the one finding on the unchanged tree (strict reading of 'the overall best observation'); see the report
-KNOWN_SIG = "C18:view:overall-best:only-failed-observations-returned-when-successes-tie-with-lie"
-REPORT_STRICT_OVERALL_BEST = True
-CLUSTER_SIG = "C18:view:cluster-best:failed-observation-returned-although-its-cluster-has-a-success-tying-with-the-lie"
-KNOWN_SIGS = (KNOWN_SIG, CLUSTER_SIG)
+# The two former findings (a failed observation tied with the worst success: only failed observations returned / a failed
+# representative of a cluster that holds a success) were repaired in the view (failed observations are compared as +inf);
+# their witnesses are corpus/C18/*.json and the first two deterministic cases of the searcher.  The strict reading is now
+# simply part of the oracle.
 STATS = dict(cluster_check_decided=0, cluster_check_undecided_ties=0)
 
 
@@ -621,20 +621,19 @@ def oracle_view(inp):
   sgn = -1 if inp["maximize"] else 1
   raw = [sgn * _fr(v) for v in inp["values"]]          # smaller is better
   succ = [i for i in range(n) if not fails[i]]
-  if succ:
-    lie = max(raw[i] for i in succ)                    # a failure is as good as the worst success
-    eff = [lie if fails[i] else raw[i] for i in range(n)]
-  else:
-    eff = [Fraction(0)] * n
+  # what "best-valued" means: every successful observation is better than every failed one; successes are ordered by their raw
+  # value for the objective; failed observations are all alike.  eff is that order as a sortable key.
+  eff = [(1, Fraction(0)) if fails[i] else (0, raw[i]) for i in range(n)]
   # The rescaling v -> negate * scale * (v - midpoint) is monotone in double arithmetic (a subtraction of one constant and a
   # multiplication by one positive constant, both monotone under rounding), so a better raw value never gets a worse scaled
   # value; two DISTINCT raw values can collapse to one scaled value only when they differ by a few ulps of the largest
   # magnitude involved (|v| or |midpoint| <= max |v|): such pairs are undecidable, everything else is decided.
   vtol = 8 * U53 * max([abs(raw[i]) for i in succ] or [Fraction(0)])
   best = min(eff)
-  if not any(eff[i] - best <= vtol for i in out):
-    return fail("overall-best-missing", "no returned index attains the best value", [i for i in range(n) if eff[i] == best], out)
-  vs = sorted(set(eff))
+  if succ and not any((not fails[i]) and raw[i] - best[1] <= vtol for i in out):
+    return fail("overall-best-missing", "no returned index is a best observation (a successful observation with the best value)",
+                [i for i in range(n) if eff[i] == best], out)
+  vs = sorted(set(raw[i] for i in succ))
   fuzzy_vals = any(b - a <= vtol for a, b in zip(vs, vs[1:]))
   D = _search_coords(inp)
 
@@ -679,26 +678,6 @@ def oracle_view(inp):
       return fail("best-indices-are-not-the-cluster-minima-of-farthest-first",
                   "the result is not one best-valued observation from each farthest-first cluster started at the best observation",
                   dict(centres=cs, partition=part), out)
-    # strict reading per cluster (same root cause as the overall-best finding, theorem C18_cluster_min_scaled_is_best_raw, failure
-    # branch): a FAILED observation is returned for a cluster that contains a successful one (which then ties with the lie value)
-    decided = [v for v in verdicts if v is not None]
-    if REPORT_STRICT_OVERALL_BEST and verdicts and len(decided) == len(verdicts) and all(v[0] for v in decided):
-      _, cs, part = decided[0]
-      for i in out:
-        mates = [t for t in range(n) if part[t] == part[i] and not fails[t]]
-        if fails[i] and mates and any((not fails[j]) and raw[j] == min(raw[q] for q in succ) for j in out):
-          return fail(CLUSTER_SIG, "a failed observation is returned for a cluster that contains a successful observation (the success has the worst "
-                      "successful value, so the failure's lie value ties with it and the earlier index wins)", dict(cluster_successes=mates, partition=part), out)
-  # strict reading of 'the overall best observation': a successful observation with the best raw value is returned
-  if REPORT_STRICT_OVERALL_BEST and succ:
-    braw = min(raw[i] for i in succ)
-    if not any((not fails[i]) and raw[i] - braw <= vtol for i in out):
-      r = fail(KNOWN_SIG, "every successful observation has the same value, so failed observations (carrying the lie value) tie with them; "
-               "the first such index is taken as the best and no best successful observation is returned",
-               [i for i in succ if raw[i] == braw], out)
-      if len(set(raw[i] for i in succ)) != 1:
-        r["signature"] = "C18:view:overall-best-successful-observation-missing"
-      return r
   return None
 
 
@@ -827,13 +806,16 @@ def search(ctx, hints, broken):
     if "kind" in h and "input" in h:
       n += 1
       add(oracle(dict(kind=h["kind"], **h["input"])))
-  # deterministic instances of the two registered findings (KNOWN_FINDINGS.json)
-  for det in (dict(kind="view", components=[dict(var_type="double", elements=[0.0, 4.0])], points=[[0.0], [4.0], [1.0]], values=[5.0, 7.0, 3.0],
-                   failures=[True, True, False], maximize=False, k=2, num_metrics=1, opt_index=0),
-              dict(kind="view", components=[dict(var_type="double", elements=[0.0, 4.0])], points=[[0.0], [4.0], [1.0], [3.0]], values=[5.0, 7.0, 3.0, 6.0],
-                   failures=[False, True, False, False], maximize=False, k=2, num_metrics=1, opt_index=0)):
-    n += 1
-    add(oracle(det))
+  # deterministic cases: the witnesses of the two repaired defects (one success among failures; a cluster whose only success is
+  # the worst success overall and is preceded by a failed member), both objectives, and a cluster without any success
+  one = [dict(var_type="double", elements=[0.0, 4.0])]
+  for pts, vals, fl in (([[0.0], [4.0], [1.0]], [5.0, 7.0, 3.0], [True, True, False]),
+                        ([[0.0], [4.0], [1.0], [3.0]], [5.0, 7.0, 3.0, 6.0], [False, True, False, False]),
+                        ([[0.0], [4.0], [1.0], [3.0]], [5.0, 7.0, 3.0, 6.0], [False, True, False, True])):
+    for mx in (False, True):
+      n += 1
+      add(oracle(dict(kind="view", components=one, points=pts, values=[-v for v in vals] if mx else vals, failures=fl, maximize=mx, k=2,
+                      num_metrics=1, opt_index=0)))
   budget = ctx.n(1500, 25000) * (2 if broken else 1)
   rng = ctx.rng
   for _ in range(budget):
@@ -848,7 +830,7 @@ def search(ctx, hints, broken):
       inp = dict(kind="view", **gen_float_view(rng))
     n += 1
     add(oracle(inp))
-    if len([f for f in fails if f["signature"] not in KNOWN_SIGS]) >= 3:
+    if len(fails) >= 3:
       break
   return dict(evaluations=n, failures=fails, oracle="brute-force farthest-first clustering and direct property statement over exact Fractions", **STATS)
 
@@ -860,16 +842,18 @@ def replay(ctx, payload):
 LEVEL_TEXT = ("Coq theorems (loop invariant of the farthest-first loop with its -inf self-distance trick, first-extremum semantics of "
               "argmax/argmin, pigeonhole for distinctness, invariant of the per-cluster strict-< scan) on an executable model of "
               "k_center_clustering and of the endpoint body, for all point sets, values, first indices and 0 < k < n; the model (including "
-              "the one-hot / unit-cube / category-separation glue and the value scaling with failures set to the lie) is tied to the code "
+              "the one-hot / unit-cube / category-separation glue, the value scaling and the +inf the view puts in place of a failed observation's value) is tied to the code "
               "by exact differential runs of the real endpoint whose comparison is evaluated inside Coq, and the implementation's outputs "
               "are also checked against the decidable specifications")
 LEVEL_NOTE = ("Exact arithmetic over Q; squared distances compared (same argmax/argmin as distances); sqrt(one_hot_dim) enters as an explicit "
-              "argument; 'overall best observation' is proved for the scaled values (failures = lie). Under the strict reading (a successful "
-              "observation with the best raw value is returned) the clause fails exactly when all successful observations tie: reported with a "
-              "fixed signature; harness and case printer trusted; no axioms")
+              "argument; the values the view compares are extended values (scaled value, +inf for a failed observation), so 'overall best "
+              "observation' and 'best-valued observation of its cluster' are proved in the strict reading on the raw values for every history "
+              "with at least one success (C18_view_strict, C18_overall_best_strict, C18_never_only_failures); harness and case printer "
+              "trusted; no axioms")
 TECHNIQUE = "Coq proof (loop invariants, induction) on executable model + in-Coq differential correspondence through the real endpoint"
 DESIGN_REF = "DESIGN.md section 7, C18"
 
 # --- second build round: additions to the claimed level
-LEVEL_TEXT += ("; the link to raw values: the first minimum of the scaled values is a successful observation with the best raw value unless all "
-               "successes tie, overall and per cluster (C18_view_best_raw)")
+LEVEL_TEXT += ("; the link to raw values: the first returned index is the first successful observation with the best raw value, every "
+               "returned index is the first best success of its cluster, a failed observation is returned only for a cluster without "
+               "any success (C18_view_strict); the strict specification is also evaluated in Coq on the implementation's own output")
